@@ -59,17 +59,29 @@ def bounded_sums(which):
             s[rng.integers(0, L, max(1, L // 2))] = 0
         x = rng.uniform(-1, 1, (3, 4))
         want = sum(s[k] * get(P + 'jacobi.jacobi')(k, a, b, x) for k in range(L))
+        keep = s.copy()
         check('explicit-sum', bool(np.allclose(get(P + 'jacobi.jacobi_sum_clenshaw')(s, a, b, x), want, **tol)))
+        check('explicit-sum-on-second-call-with-the-same-array', bool(np.allclose(get(P + 'jacobi.jacobi_sum_clenshaw')(s, a, b, x), want, **tol)))
+        check('coefficients-untouched', bool(np.array_equal(s, keep)))
     elif which == 'clenshaw_qbfs':
         L = int(rng.integers(1, 11))
         cs = rng.standard_normal(L)
         want = sum(cs[k] * get(Q + 'Qbfs')(k, u) for k in range(L))
+        keep = cs.copy()
         check('explicit-sum', bool(np.allclose(get(Q + 'clenshaw_qbfs')(cs, u * u), want, **tol)))
+        # the evaluators work on an internal change of basis: it must not be written into the caller's coefficient array
+        check('explicit-sum-on-second-call-with-the-same-array', bool(np.allclose(get(Q + 'clenshaw_qbfs')(cs, u * u), want, **tol)))
+        z_ = get(Q + 'compute_z_zprime_Qbfs')(cs, u, u * u)[0]
+        check('compute_z_zprime_Qbfs-explicit-sum', bool(np.allclose(z_, want, **tol)))
+        check('coefficients-untouched', bool(np.array_equal(cs, keep)))
     elif which == 'compute_z_Qcon':
         L = int(rng.integers(1, 11))
         cs = rng.standard_normal(L)
         want = sum(cs[k] * get(Q + 'Qcon')(k, u) for k in range(L))
+        keep = cs.copy()
         check('explicit-sum', bool(np.allclose(get(Q + 'compute_z_zprime_Qcon')(cs, u, u * u)[0], want, **tol)))
+        check('explicit-sum-on-second-call-with-the-same-array', bool(np.allclose(get(Q + 'compute_z_zprime_Qcon')(cs, u, u * u)[0], want, **tol)))
+        check('coefficients-untouched', bool(np.array_equal(cs, keep)))
     elif which == 'compute_z_Q2d':
         cm0 = list(rng.standard_normal(int(rng.integers(0, 4))))
         M = int(rng.integers(0, 4))
@@ -85,7 +97,15 @@ def bounded_sums(which):
                 la, lb = (0, lb) if rng.random() < 0.5 else (la, 0)
             ams.append(list(rng.standard_normal(la)))
             bms.append(list(rng.standard_normal(lb)))
-        z = get(Q + 'compute_z_zprime_Q2d')(cm0, ams, bms, u, t)[0]
+        if rng.random() < 0.5:
+            # coefficient vectors as float64 arrays (what an optimiser holds) instead of lists
+            cm0, ams, bms = np.array(cm0, dtype=float), [np.array(v, dtype=float) for v in ams], [np.array(v, dtype=float) for v in bms]
+        keep = (np.array(cm0, dtype=float).copy(), [np.array(v, dtype=float).copy() for v in ams], [np.array(v, dtype=float).copy() for v in bms])
+        get(Q + 'compute_z_zprime_Q2d')(cm0, ams, bms, u, t)
+        z = get(Q + 'compute_z_zprime_Q2d')(cm0, ams, bms, u, t)[0]          # second call with the same objects
+        check('coefficients-untouched', bool(np.array_equal(np.array(cm0, dtype=float), keep[0]) and
+                                             all(np.array_equal(np.array(v, dtype=float), k_) for v, k_ in zip(ams, keep[1])) and
+                                             all(np.array_equal(np.array(v, dtype=float), k_) for v, k_ in zip(bms, keep[2]))))
         want = np.zeros_like(u)
         for n, c in enumerate(cm0):
             want = want + c * get(Q + 'Qbfs')(n, u)
